@@ -16,4 +16,4 @@ G = ['crash points / kill signals between calls are not expressible in a sequent
 
 sys.path.insert(0, os.path.join(os.path.dirname(os.path.abspath(__file__)), '..', '..', 'tools'))
 import replay_lib  # noqa: E402
-REPLAY = replay_lib.make_replay(replay_lib.scenario_failed_close, replay_lib.scenario_backup_close_fault, replay_lib.scenario_failed_backup, replay_lib.scenario_md5_after_rename, replay_lib.scenario_md5_read_fault)
+REPLAY = replay_lib.make_replay(replay_lib.scenario_failed_close, replay_lib.scenario_backup_close_fault, replay_lib.scenario_corrupt_md5_file, replay_lib.scenario_failed_backup, replay_lib.scenario_md5_after_rename, replay_lib.scenario_md5_read_fault)
